@@ -16,6 +16,7 @@ import (
 	"slices"
 	"sort"
 	"strings"
+	"time"
 
 	"deps.dev/util/resolve"
 	"deps.dev/util/resolve/dep"
@@ -145,13 +146,15 @@ type TwoRun struct {
 	Run1Err      string  `json:"run1_err,omitempty"`
 	ResVulns     []Vuln  `json:"res_vulns"`
 	ResPatches   []Patch `json:"res_patches"`
+	TraceRetries int     `json:"trace_retries"` // extra trace executions needed to reproduce run 1's candidate list
+	Hung         bool    `json:"hung,omitempty"`
 	TraceAgrees  bool    `json:"trace_agrees"` // run 1 == choosePatches/computeVulnsResult on the traced inputs
 	BytesChanged bool    `json:"bytes_changed"`
 
 	Run2Err   string   `json:"run2_err,omitempty"`
 	A2        Analysis `json:"a2"`
-	Rerun     []string `json:"rerun_ids"`      // IDs a fresh analysis of the written file reports
-	RerunFix  []string `json:"rerun_fix_ids"`  // IDs in Result.Vulnerabilities of a second FixVulns on a copy
+	Rerun     []string `json:"rerun_ids"`     // IDs a fresh analysis of the written file reports
+	RerunFix  []string `json:"rerun_fix_ids"` // IDs in Result.Vulnerabilities of a second FixVulns on a copy
 	Run2bErr  string   `json:"run2b_err,omitempty"`
 	OptsAfter []string `json:"caller_ignore_after"` // the caller's IgnoreVulns slice after run 1 (must be unchanged)
 }
@@ -299,7 +302,27 @@ func sortedCopy(xs []string) []string {
 }
 
 // runTwoRun executes the protocol. dir is a scratch directory owned by the caller.
-func runTwoRun(u *Universe, o Opts, dir string, maxCands int) (tr *TwoRun) {
+// hangs counts the cases whose protocol did not come back (their goroutines keep spinning).
+var hangs int
+
+// runTwoRun runs the protocol under a watchdog: a remediation call that does not return is
+// recorded (Hung) instead of stalling the harness.
+func runTwoRun(u *Universe, o Opts, dir string, maxCands int) *TwoRun {
+	if hangs >= 3 {
+		return &TwoRun{Universe: u, Opts: o, TraceErr: "skipped: three earlier cases did not return"}
+	}
+	ch := make(chan *TwoRun, 1)
+	go func() { ch <- runTwoRunInner(u, o, dir, maxCands) }()
+	select {
+	case tr := <-ch:
+		return tr
+	case <-time.After(30 * time.Second):
+		hangs++
+		return &TwoRun{Universe: u, Opts: o, Hung: true, Run1Err: "the two-run protocol did not return within 30 s"}
+	}
+}
+
+func runTwoRunInner(u *Universe, o Opts, dir string, maxCands int) (tr *TwoRun) {
 	tr = &TwoRun{Universe: u, Opts: o}
 	ctx := context.Background()
 	sys := sysOf(u.Sys)
@@ -323,8 +346,11 @@ func runTwoRun(u *Universe, o Opts, dir string, maxCands int) (tr *TwoRun) {
 		return p
 	}
 
-	// ---- trace on a copy
-	func() {
+	// ---- trace on a copy (repeatable)
+	var wantV []Vuln
+	var wantP []Patch
+	doTrace := func() {
+		tr.TraceErr, tr.AllPatches, tr.Cands = "", nil, nil
 		defer func() {
 			if r := recover(); r != nil {
 				tr.TraceErr = fmt.Sprintf("panic: %v", r)
@@ -359,12 +385,10 @@ func runTwoRun(u *Universe, o Opts, dir string, maxCands int) (tr *TwoRun) {
 			tr.Cands = append(tr.Cands, c)
 		}
 		// what doStrategy would report from these inputs
-		wantV := convVulns(gr.VerifC12ComputeVulnsResult(a0, all))
-		wantP := convPatches(sys, gr.VerifC12ChoosePatches(all, o.MaxUpgrades, o.NoIntroduce))
-		tr.ResVulns, tr.ResPatches = wantV, wantP // overwritten by run 1 below; compared there
-	}()
-	wantV, wantP := tr.ResVulns, tr.ResPatches
-	tr.ResVulns, tr.ResPatches = nil, nil
+		wantV = convVulns(gr.VerifC12ComputeVulnsResult(a0, all))
+		wantP = convPatches(sys, gr.VerifC12ChoosePatches(all, o.MaxUpgrades, o.NoIntroduce))
+	}
+	doTrace()
 
 	// ---- run 1: the real FixVulns
 	p1 := mk("run")
@@ -388,8 +412,18 @@ func runTwoRun(u *Universe, o Opts, dir string, maxCands int) (tr *TwoRun) {
 		tr.ResPatches = convPatches(sys, res.Patches)
 	}()
 	tr.OptsAfter = callerIgnore
-	tr.TraceAgrees = tr.TraceErr == "" && patchesEqual(wantP, tr.ResPatches) &&
-		fmt.Sprintf("%+v", wantV) == fmt.Sprintf("%+v", tr.ResVulns)
+	agrees := func() bool {
+		return tr.TraceErr == "" && patchesEqual(wantP, tr.ResPatches) && fmt.Sprintf("%+v", wantV) == fmt.Sprintf("%+v", tr.ResVulns)
+	}
+	// The candidate list of a strategy is not a function of its inputs: common.ComputePatches
+	// removes "duplicates" with result.Patch.Compare, which does not look at aliases, VersionFrom or
+	// the fixed IDs, so of two different patches that compare equal the one whose goroutine finished
+	// first survives (observed with one npm package required under two aliases; reported). The
+	// trace is a second execution; it is repeated until it is the execution run 1 had.
+	for tr.TraceRetries = 0; !agrees() && tr.TraceErr == "" && tr.Run1Err == "" && tr.TraceRetries < 8; tr.TraceRetries++ {
+		doTrace()
+	}
+	tr.TraceAgrees = agrees()
 	after, _ := os.ReadFile(p1)
 	tr.BytesChanged = string(after) != u.Manifest
 
